@@ -36,6 +36,9 @@ Vector == (Emit /\ ph = 1) =>
           sg |-> SplineGrid(c.mn, c.mx, c.h), tg |-> TableGrid(c.mn, c.mx, c.h)]
     ELSE [fam |-> "smooth", y |-> c.Y, n |-> c.n, p |-> Pow4(c.n), s |-> SmoothN(c.Y, c.n),
           f |-> [i \in 1..Len(c.Y) |-> FlagOf(i + c.Y[1])],
+          \* ordinate magnitude 2^ys (exact): Smooth is exact at every scale, Save/Load relative 1e-9
+          ys |-> LET m == (c.Y[1] + 2 * c.Y[Len(c.Y)] + c.n + Len(c.Y)) % 4 IN
+                 IF m = 1 THEN -40 ELSE IF m = 3 THEN 40 ELSE 0,
           \* error column in quarters (only when e): 1/4, 2/4, 0, 1/4, ...
           e |-> IF c.e THEN [i \in 1..Len(c.Y) |-> (i + c.n) % 3] ELSE <<>>]))
 =============================================================================
